@@ -77,7 +77,9 @@ def make_tum_traj(F, n, mode):
     quat = unit_quats(n)
     if mode == "quat":
         return PoseTrajectory3D(xyz, quat, stamps)
-    poses = [geom.pose(geom.quat_wxyz_to_rot(q), p) for q, p in zip(quat, xyz)]
+    poses = [np.asfortranarray(geom.pose(geom.quat_wxyz_to_rot(q), p))
+             if k % 2 else geom.pose(geom.quat_wxyz_to_rot(q), p)
+             for k, (q, p) in enumerate(zip(quat, xyz))]
     return PoseTrajectory3D(poses_se3=poses, timestamps=stamps)
 
 
@@ -87,8 +89,12 @@ def make_path(F, n, mode):
     quat = unit_quats(n)
     if mode == "quat":
         return PosePath3D(L.copy(), quat)
-    return PosePath3D(poses_se3=[geom.pose(geom.quat_wxyz_to_rot(q), p)
-                                 for q, p in zip(quat, L)])
+    # (every second matrix in column-major memory layout, as matrices from
+    # Eigen-based bindings or a transposed view are: same values)
+    return PosePath3D(poses_se3=[
+        np.asfortranarray(geom.pose(geom.quat_wxyz_to_rot(q), p))
+        if k % 2 else geom.pose(geom.quat_wxyz_to_rot(q), p)
+        for k, (q, p) in enumerate(zip(quat, L))])
 
 
 def diff_bits(a, b, what):
@@ -313,7 +319,10 @@ def run_bag(stamps, frame_id, wd):
     # coordinates within float64 range of a ROS float64 field: everything
     xyz = latin(F, n, 3, stride=13)
     quat = unit_quats(n)
-    t = PoseTrajectory3D(xyz, quat, np.array(stamps))
+    # (a trajectory read from a bag carries the frame id it was read with;
+    # the export uses the frame id it is given)
+    t = PoseTrajectory3D(xyz, quat, np.array(stamps),
+                         meta={"frame_id": "frame_it_was_read_with"})
     p = os.path.join(wd, "b_%d.bag" % os.getpid())
     if os.path.exists(p):
         os.remove(p)
